@@ -55,6 +55,7 @@ func (e *elemM) tagString() string {
 func docModel(t *Terminal) (*elemM, []string) {
 	var root *elemM
 	byKey := map[string]*elemM{}
+	ownedStorage := map[string]bool{}
 	var problems []string
 	for _, e := range t.St.events {
 		switch e.Kind {
@@ -80,13 +81,18 @@ func docModel(t *Terminal) (*elemM, []string) {
 			case "Tag":
 				m.Local = e.Val
 			case "Child", "Attr":
+				// preallocation — a fresh empty slice made for this one element — adds nothing to the document
+				if isNilConst(e.Val) || (isEmptySliceValT(t, e.Val) && !ownedStorage[e.Val.Key()]) {
+					ownedStorage[e.Val.Key()] = true
+					break
+				}
 				problems = append(problems, "direct store to Element."+fa.Name)
 			}
 		case EvCall:
 			switch shortName(e.Callee) {
 			case "(*etree.Element).CreateAttr":
 				if m := byKey[e.Args[0].Key()]; m != nil {
-					m.Attrs = append(m.Attrs, attrM{Name: e.Args[1], Val: e.Args[2], Ev: e})
+					m.Attrs = append(m.Attrs, attrM{Name: e.Args[1], Val: derefCopies(t, e.Args[2]), Ev: e})
 				}
 			case "(*etree.Element).CreateElement":
 				if m := byKey[e.Args[0].Key()]; m != nil {
@@ -670,7 +676,8 @@ func ruleC18(c *Ctx) {
 			if b, ok := v.(*BinV); ok && b.Op == token.ADD {
 				if pfx, ok := constString(b.X); ok && len(pfx) > 0 && (pfx[0] == '_' || (pfx[0] >= 'A' && pfx[0] <= 'Z') || (pfx[0] >= 'a' && pfx[0] <= 'z')) {
 					if s, ok := b.Y.(*CallV); ok && shortName(s.Callee) == "(*uuid.UUID).String" {
-						if nv, ok := s.Args[0].(*CallV); ok && shortName(nv.Callee) == "uuid.NewV4" && strings.Contains(nv.Site, baseFn(res.Root)) {
+						recv := s.Args[0]
+						if nv, ok := recv.(*CallV); ok && shortName(nv.Callee) == "uuid.NewV4" && strings.Contains(nv.Site, baseFn(res.Root)) {
 							good = true
 						}
 					}
@@ -1690,4 +1697,38 @@ func lenAddsUp(n Val, k int64, src Val) bool {
 		}
 	}
 	return nk == sk && nc == k-j
+}
+
+// derefCopies rewrites pure reads through a local by-value copy into reads of the original: f(&local) with
+// local := *p (unmodified up to the call, f a deterministic contract function of the pointee) becomes f(p). The value
+// is the same; only the spelling differs.
+func derefCopies(t *Terminal, v Val) Val {
+	switch x := v.(type) {
+	case *BinV:
+		a, b := derefCopies(t, x.X), derefCopies(t, x.Y)
+		if a != x.X || b != x.Y {
+			return mkBin(x.Op, a, b, x.Type())
+		}
+	case *CallV:
+		ct := lookupContract(x.Callee)
+		if ct == nil || !ct.Det || len(x.Args) == 0 {
+			return v
+		}
+		loc, isLocal := x.Args[0].(*AllocV)
+		if !isLocal {
+			return v
+		}
+		for _, e := range t.St.events {
+			if e.Kind == EvCall && e.Callee == x.Callee && len(e.Args) > 0 && e.Args[0].Key() == loc.Key() && len(e.Res) > x.Idx && e.Res[x.Idx].Key() == x.Key() {
+				if cp, ok := wholeCopyValAt(t, loc, e.Seq); ok {
+					if l, isLoad := cp.(*LoadV); isLoad {
+						args := append([]Val{l.Addr}, x.Args[1:]...)
+						return mkCall(x.Callee, x.Fn, args, x.Site, x.Idx, x.N, x.Type())
+					}
+				}
+				break
+			}
+		}
+	}
+	return v
 }
